@@ -260,4 +260,5 @@ class DataManipulationBot(Application, discriminator="data-manipulation-bot"):
 
         :param timestep: The timestep value to update the bot's state.
         """
-        pass
+        # the generic countdowns (installation, fixing) live in the base classes
+        super().apply_timestep(timestep=timestep)
